@@ -149,6 +149,22 @@ def run_real_persist(attempts):
     import lomond.persist as P
     runs = []
 
+    cur = {}
+
+    # one session class for all attempts, as with persist() in an application (it passes no session_class at all)
+    class Sess(S.WebsocketSession):
+        def _connect(self_):
+            sc, run = cur["sc"], cur["run"]
+            if sc.get("connect") == "sockfail":
+                self_._socket_fail("unable to connect")
+            run.sock = simnet.SimSocket(run)
+            return run.sock, None
+
+        def _selector_cls(self_, sock):
+            run = cur["run"]
+            run.selector = simnet.SimSelector(sock, run)
+            return run.selector
+
     class WS(W.WebSocket):
         def connect(self, **kw):
             i = len(runs)
@@ -157,17 +173,7 @@ def run_real_persist(attempts):
             sc = attempts[i]
             run = simnet.Run(sc)
             runs.append(run)
-
-            class Sess(S.WebsocketSession):
-                def _connect(self_):
-                    if sc.get("connect") == "sockfail":
-                        self_._socket_fail("unable to connect")
-                    run.sock = simnet.SimSocket(run)
-                    return run.sock, None
-
-                def _selector_cls(self_, sock):
-                    run.selector = simnet.SimSelector(sock, run)
-                    return run.selector
+            cur["sc"], cur["run"] = sc, run
             S.time = run.clock
             return W.WebSocket.connect(self, session_class=Sess, **kw)
 
